@@ -19,7 +19,7 @@ for d in sorted(glob.glob('/tmp/seed_out/C[0-9][0-9][ab]'))+sorted(glob.glob('/t
         if not m: continue
         if m.group(1)=='0' and m.group(2)!='0': confirmed=True
         under=prop
-        mm=re.match(r'.*%s_(C\d\d)\.txt'%sid,e)
+        mm=re.match(r'.*%s(?:_r\d+)?_(C\d\d)\.txt'%sid,e)
         if mm: under=mm.group(1)
         rc=re.search(r'check exit=(\d+)',txt)
         labels=sorted(set(re.findall(r'assertion "([^"]+)"',txt)))
